@@ -27,7 +27,7 @@
 EXTENDS Framing, TLC, Json, FiniteSets
 
 CONSTANTS MaxMsgs,        \* streams of 0..MaxMsgs messages
-          PoolIdx,        \* subset of 1..5 : which pool messages may be used
+          PoolIdx,        \* subset of 1..6 : which pool messages may be used
           SepIdx,         \* subset of 1..5 : which separators may be used
           Faults,         \* subset of FaultKinds (without "none") that may be applied
           Modes,          \* subset of [info: BOOLEAN, cont: BOOLEAN, filt: BOOLEAN, ive: BOOLEAN]
@@ -52,7 +52,10 @@ PoolMsg(k) ==
       [] k = 4 -> Message(2, Ident0, <<>>, 1, TRUE, FALSE, <<12001, 2001>>, UintBits(2501, 12) \o <<1, 0>>)
       \* 221001: the next descriptor carries no data - but it still has to be a defined one
       [] k = 5 -> Message(4, Ident0, <<>>, 1, TRUE, FALSE, <<221001, 12001, 1001>>, <<0, 0, 0, 0, 1, 0, 1>>)
-PoolEdition(k) == CASE k = 1 -> 4 [] k = 2 -> 3 [] k = 3 -> 4 [] k = 4 -> 2 [] k = 5 -> 4 [] k >= 100 -> 4
+      \* the optional section 2 (three local octets): metadata-only decoding then sees as many sections as a full decode
+      \* of a message without it
+      [] k = 6 -> Message(3, Ident0, <<<<170, 85, 66>>>>, 1, TRUE, FALSE, <<2001>>, <<1, 0>>)
+PoolEdition(k) == CASE k = 1 -> 4 [] k = 2 -> 3 [] k = 3 -> 4 [] k = 4 -> 2 [] k = 5 -> 4 [] k = 6 -> 3 [] k >= 100 -> 4
 
 (* the length sweep: segment index 100 + y is an edition 4 message carrying y filler octets in two 205YYY
    character fields, so its total length is 49 + y: what a scanner reads from the header of a message -
@@ -88,7 +91,7 @@ Damage(m, f) ==
       [] f = "grow4" -> Patch(m, h.s4, U(h.l4 + 1, 3))
 
 (* computed once (see the note in Tables.tla on constant definitions) *)
-ASSUME TLCSet(21, [k \in 1..5 |-> [f \in FaultKinds \cup {"none"} |-> Damage(PoolMsg(k), f)]])
+ASSUME TLCSet(21, [k \in 1..6 |-> [f \in FaultKinds \cup {"none"} |-> Damage(PoolMsg(k), f)]])
 Octets(k, f) == TLCGet(21)[k][f]
 
 VARIABLES layout,     \* sequence of [kind: "sep" | "msg", k, fault]
